@@ -286,3 +286,11 @@ induction_lemma(
     prop=lambda k: LenRowsf(_rb2, k, _cb2, _ce2, _t2) >= 0,
     patterns=lambda k: [LenRowsf(_rb2, k, _cb2, _ce2, _t2)],
     doc='a number of pairs is never negative', props=('C06',), axioms=layout_axioms())
+
+
+def _intdtype(ex, st, a):
+    from dvc.libmodels import dtype_is_int
+    return dtype_is_int(st.heap[a.oid])
+
+
+spec('IntDtype', z3=_intdtype, py=_intdtype, doc='the ndarray has an integer dtype (usable as a fancy index)')
